@@ -4,11 +4,13 @@
 -/
 import HealSparse.Model.Api
 import HealSparse.Model.Valid
+import HealSparse.Model.PackedDispatch
 import HealSparse.Model.Text
 namespace HS
 
 structure World where
   pool : List (String × MapObj) := []
+  packed : PackedWorld := {}
 
 def World.get? (w : World) (n : String) : Option MapObj := (w.pool.find? (·.1 == n)).map (·.2)
 def World.put (w : World) (n : String) (m : MapObj) : World :=
@@ -142,6 +144,10 @@ def step (w : World) (line : String) : World × String :=
   let toks := (line.trimAscii.toString.splitOn " ").filter (· != "")
   match toks with
   | [] => (w, "bad-op:empty")
-  | op :: rest => stepArgs w op (parseArgs rest)
+  | op :: rest =>
+    if op.startsWith "p." then
+      let (pw, o) := stepPacked w.packed op (parseArgs rest)
+      ({ w with packed := pw }, o)
+    else stepArgs w op (parseArgs rest)
 
 end HS
